@@ -1,4 +1,5 @@
 import SafeNet.Proofs.ValidateData
+import SafeNet.Proofs.ValidateWorld
 /-!
 # C04 — every accepted record's address is derived from its own content or owner
 
@@ -110,6 +111,29 @@ theorem put_event_implies_parsed (maxBytes len : Nat) (hdr : Option Kind) (held 
     | none => have := this.2.2 rfl; simp_all
     | some _ => rfl
 
+/-- **Under every schedule** of concurrent validations (`World.run` over an arbitrary action list), every key
+the node comes to hold is the record key of a started validation whose content determines exactly that key
+(for a replicated transaction vector: whose entries are filtered to that key, see `stored_key_is_derived`).
+So no interleaving can leave a record under a key its content does not derive. -/
+theorem any_schedule_keys_derived (s0 : Store) (acts : List Act) (k : Nat)
+    (hnew : s0.get k = none) (hheld : (World.run ⟨s0, []⟩ acts).store.get k ≠ none) :
+    ∃ d ∈ startedBy ⟨s0, []⟩ acts, d.rk = k ∧ (¬ IsTxVector d → derivedKey d.content = some k) := by
+  rcases any_schedule_held_is_justified s0 acts k hheld with h | ⟨d, hd, hk, hko, _⟩
+  · exact absurd hnew h
+  · obtain ⟨h1, h2⟩ := hko
+    refine ⟨d, hd, by rw [← h1, hk], fun hv => ?_⟩
+    have := h2 hv
+    rw [this, ← h1, hk]
+
+/-- Corollary: started validations all presented under keys other than `k` never make `k` held. -/
+theorem any_schedule_foreign_key_untouched (s0 : Store) (acts : List Act) (k : Nat)
+    (hall : ∀ d ∈ startedBy ⟨s0, []⟩ acts, d.rk ≠ k) (hnew : s0.get k = none) :
+    (World.run ⟨s0, []⟩ acts).store.get k = none := by
+  by_cases h : (World.run ⟨s0, []⟩ acts).store.get k = none
+  · exact h
+  · obtain ⟨d, hd, hk, _⟩ := any_schedule_keys_derived s0 acts k hnew h
+    exact absurd hk (hall d hd)
+
 /-! Non-vacuity -/
 example : (validate ⟨true, .reg, 5, .reg 0 .good [⟨1, .v⟩, ⟨2, .v⟩], none⟩ [(2, .reg false [1]), (5, .reg false [1])]) =
     (.keyMismatch, []) := by decide
@@ -126,3 +150,5 @@ end SafeNet.Props.C04
 #print axioms SafeNet.Props.C04.mismatch_rejected
 #print axioms SafeNet.Props.C04.put_never_readable
 #print axioms SafeNet.Props.C04.put_event_implies_parsed
+#print axioms SafeNet.Props.C04.any_schedule_keys_derived
+#print axioms SafeNet.Props.C04.any_schedule_foreign_key_untouched
